@@ -582,10 +582,11 @@ def do_barlines(part, start, end):
     for onset in sorted(by_onset.keys()):
         attrib = {}
 
-        if onset == start.t:
+        # (start and end delimit a segment of equal divisions, not always a measure)
+        if onset == start.t and start.starting_objects.get(score.Measure):
             attrib["location"] = "left"
 
-        elif onset == end.t:
+        elif onset == end.t and end.ending_objects.get(score.Measure):
             attrib["location"] = "right"
 
         else:
